@@ -149,7 +149,7 @@ def key(e):
     if t == 'discr':
         return 'discr(%s)' % key(e[1])
     if t == 'phi':
-        return 'phi(%s)' % ', '.join(key(a) for a in e[1])
+        return 'phi(%s)' % ', '.join(key(a[1]) for a in e[1])
     if t == 'fld':
         return '%s.%s' % (key(e[1]), '.'.join(e[2]))
     if t == 'other':
@@ -179,6 +179,7 @@ class Ctx:
         self._defs = None
         self._origin = {}
         self._expr = {}
+        self._expr_roots = {}
         self._busy = set()
 
     # ---------------- definitions ----------------
@@ -342,7 +343,12 @@ class Ctx:
                     continue
                 if 'f' in e:
                     if e['adt'] == 'closure':
-                        base = AP(('upvar', e['f']))
+                        pe = self.upvar_expr(e['i'], e['f'])
+                        if pe is not None:
+                            base = AP(('expr', key(pe)))
+                            self._expr_roots[key(pe)] = pe
+                        else:
+                            base = AP(('upvar', e['f']))
                     elif e['adt'] == 'tuple' or (prev_dc and e['f'].isdigit()):
                         prev_dc = False
                         continue
@@ -357,6 +363,30 @@ class Ctx:
                     base = base.extend('[*]')
                 # downcast: transparent
         return base
+
+    def upvar_expr(self, idx, name):
+        """the captured variable as an expression of the function that builds this closure (None if unknown)"""
+        if self.fn.kind != 'closure':
+            return None
+        k = ('uv', idx)
+        if k in self._expr:
+            return self._expr[k]
+        self._expr[k] = None
+        r = None
+        site = self.world.closure_site(self.fn)
+        if site is not None:
+            pf, stmt = site
+            if idx < len(stmt.rv.ops):
+                pcx = self.world.ctx(pf)
+                try:
+                    r = pcx.expr_operand(stmt.rv.ops[idx])
+                except RecursionError:
+                    r = None
+                if r is not None and r[0] == 'var':
+                    # keep the parent's variable, qualified so that it cannot be confused with a local of the closure
+                    r = ('ap', '%s#%d@%s' % (r[2] or 'v', r[1], last_seg(pf.path)))
+        self._expr[k] = r
+        return r
 
     def ap_str(self, ap, generic=False):
         return ap.s(self.fn, generic)
@@ -427,6 +457,13 @@ class Ctx:
                 if proj[0]['i'] == 0:
                     return self.mk_bin(rv.op[:-len('WithOverflow')], rv.a, rv.b)
                 return ('other', 'overflow_flag')
+        # a captured variable read as a whole: the parent's expression for it
+        if self.fn.kind == 'closure' and L == 1:
+            flds = [e for e in proj if isinstance(e, dict) and 'f' in e]
+            if len(flds) == 1 and flds[0].get('adt') == 'closure' and all(e == 'deref' or e is flds[0] for e in proj):
+                pe = self.upvar_expr(flds[0]['i'], flds[0]['f'])
+                if pe is not None:
+                    return pe
         # transparent projections on a carrier: value of the carried thing
         ap = self.ap_of_place(place)
         if ap.root[0] in ('local',) and not ap.steps:
@@ -461,6 +498,8 @@ class Ctx:
                 if base[0] == 'ap':
                     return ('ap', base[1] + ''.join(('.' + s) if not s.startswith('[') else s for s in ap.steps))
                 return ('fld', base, ap.steps)
+        if ap.root[0] == 'expr' and not ap.steps and ap.root[1] in self._expr_roots:
+            return self._expr_roots[ap.root[1]]
         return ('ap', ap.s(self.fn))
 
     def partial_defs_of_field(self, local, field):
@@ -581,6 +620,32 @@ class Ctx:
                     return r
         return ('call', c.best, tuple(self.expr_operand(a) for a in args))
 
+    def call_phi(self, call_expr):
+        """for ('call', path, args) of a small pure local function with branches: its result as a phi over the return
+        paths, each under its path condition expressed in the caller's terms; None if not applicable"""
+        path, args = call_expr[1], call_expr[2]
+        tg = self.world.cg.by_path.get(path, [])
+        if len(tg) != 1 or self.depth >= 2:
+            return None
+        g = tg[0]
+        if self.world.is_straight_line(g) or not self.world.is_small_pure(g):
+            return None
+        env = {}
+        for i, a in enumerate(args):
+            env[i + 1] = a
+        sub = Ctx(g, self.world, env=env, depth=self.depth + 1)
+        subG = Guards(sub)
+        pd = subG.phi_defs(0)
+        if not pd:
+            return None
+        alts = []
+        for b, v in pd:
+            gd = subG.guard(b)
+            if b in subG.truncated or mentions_callee_local(v) or any(mentions_callee_key(a) for c2 in gd for a in c2):
+                return None
+            alts.append((tuple(tuple(c2) for c2 in gd), v))
+        return ('phi', tuple(alts))
+
     def refers(self, op):
         """is the operand a reference-like value (so that its origin is meaningful)?"""
         if not op.is_place():
@@ -603,6 +668,14 @@ class Ctx:
         return ty
 
 
+def mentions_callee_key(atom):
+    import re as _re
+    for k2 in _atom_keys(atom):
+        if _re.search(r'(^|[^A-Za-z_0-9])(_\d+|[A-Za-z_][A-Za-z_0-9]*#\d+)', k2):
+            return True
+    return False
+
+
 def mentions_callee_local(e):
     """an inlined expression must be closed over caller terms: no ('var', ...) or '_N' local roots of the callee"""
     t = e[0]
@@ -618,8 +691,10 @@ def mentions_callee_local(e):
         return mentions_callee_local(e[2])
     if t == 'call':
         return any(mentions_callee_local(a) for a in e[2])
-    if t in ('min', 'max', 'phi'):
+    if t in ('min', 'max'):
         return any(mentions_callee_local(a) for a in e[1])
+    if t == 'phi':
+        return any(mentions_callee_local(a[1]) for a in e[1])
     if t == 'agg':
         return any(mentions_callee_local(v) for _, v in e[2])
     if t in ('discr', 'fld'):
@@ -834,6 +909,20 @@ def conj_simplify(atoms):
         else:
             rest.add(a)
     out = []
+    # integer tightening: x != k at an end of x's interval moves that end
+    changed = True
+    while changed:
+        changed = False
+        for a in list(ne):
+            lo, hi = lin.get(a[1], (None, None))
+            if lo is not None and a[2] == lo:
+                lin[a[1]] = (lo + 1, hi)
+                ne.discard(a)
+                changed = True
+            elif hi is not None and a[2] == hi:
+                lin[a[1]] = (lo, hi - 1)
+                ne.discard(a)
+                changed = True
     for vec, (lo, hi) in lin.items():
         if lo is not None and hi is not None and lo > hi:
             return None
@@ -1138,6 +1227,22 @@ class Guards:
         return seen
 
     def cond_dnf(self, e, pol, _depth=0):
+        ph = first_phi(e)
+        if ph is not None and _depth < 3:
+            r = []
+            for dnf_t, val in ph[1]:
+                sub = self.cond_dnf(subst_phi(e, ph, val), pol, _depth + 1)
+                r.extend(dnf_and([list(c) for c in dnf_t], sub))
+            return r
+        cl = first_call(e)
+        if cl is not None and _depth < 3:
+            ph2 = self.ctx.call_phi(cl)
+            if ph2 is not None:
+                r = []
+                for dnf_t, val in ph2[1]:
+                    sub = self.cond_dnf(subst_phi(e, cl, val), pol, _depth + 1)
+                    r.extend(dnf_and([list(c) for c in dnf_t], sub))
+                return r
         v = first_var(e)
         if v is not None and _depth < 3:
             pd = self.phi_defs(v)
@@ -1372,3 +1477,49 @@ def _atom_keys(a):
     if t in ('bool', 'is'):
         return [a[1]]
     return []
+
+
+def first_phi(e):
+    t = e[0]
+    if t == 'phi':
+        return e
+    if t == 'bin':
+        return first_phi(e[2]) or first_phi(e[3])
+    if t == 'un':
+        return first_phi(e[2])
+    if t in ('min', 'max'):
+        for a in e[1]:
+            v = first_phi(a)
+            if v is not None:
+                return v
+    return None
+
+
+def subst_phi(e, ph, val):
+    if e is ph or e == ph:
+        return val
+    t = e[0]
+    if t == 'bin':
+        return ('bin', e[1], subst_phi(e[2], ph, val), subst_phi(e[3], ph, val), e[4])
+    if t == 'un':
+        return ('un', e[1], subst_phi(e[2], ph, val))
+    if t in ('min', 'max'):
+        return (t, tuple(subst_phi(a, ph, val) for a in e[1]))
+    return e
+
+
+def first_call(e):
+    """first ('call', ...) subterm in an arithmetic/comparison context"""
+    t = e[0]
+    if t == 'call' and isinstance(e[1], str) and e[1].startswith('ggrs::'):
+        return e
+    if t == 'bin':
+        return first_call(e[2]) or first_call(e[3])
+    if t == 'un':
+        return first_call(e[2])
+    if t in ('min', 'max'):
+        for a in e[1]:
+            v = first_call(a)
+            if v is not None:
+                return v
+    return None
